@@ -2,7 +2,6 @@ package main
 
 import (
 	"fmt"
-	"strings"
 	"go/token"
 	"go/types"
 	"sort"
@@ -264,75 +263,41 @@ func rulesC13(w *World, r *Report) {
 	}
 	r.floor("C13.R1 call sites that can relay a codec error", n1, 15)
 
-	// R2: every return of the value dispatch that can be reached with an unsupported kind is an error
-	f := w.flow(wd)
-	var valueOf *ssa.Call
-	nCmp := 0
-	for _, b := range wd.Blocks {
-		for _, in := range b.Instrs {
-			c, ok := in.(*ssa.Call)
-			if !ok {
-				continue
-			}
-			sc := c.Call.StaticCallee()
-			if sc == nil {
-				continue
-			}
-			if qualifiedFnName(sc) == "reflect.ValueOf" && valueOf == nil {
-				valueOf = c
-			}
-			if qualifiedFnName(sc) == "(reflect.Value).Kind" {
-				for _, ref := range *c.Referrers() {
-					if bo, ok := ref.(*ssa.BinOp); ok && bo.Op == token.EQL {
-						nCmp++
-					}
-				}
-			}
+	// R2: for every unsupported kind, every path of the value dispatch ends in a
+	// non-nil error before anything is written (one exploration per kind)
+	{
+		var ks []int64
+		for k := range unsupportedKinds {
+			ks = append(ks, k)
 		}
-	}
-	if valueOf == nil || nCmp < 5 {
-		r.undecided("C13.R2 unsupported kinds yield an error", "(*Encoder).WriteData · kind dispatch", w.pos(wd.Pos()), "no reflect.ValueOf + Kind() dispatch over ≥5 kinds was found: the kind dispatch was not recognised")
-	} else {
-		idx := errIndex(wd.Signature)
-		n2, nRet := 0, 0
-		for _, b := range wd.Blocks {
-			ret, ok := b.Instrs[len(b.Instrs)-1].(*ssa.Return)
-			if !ok || !f.Reachable(b) {
-				continue
-			}
-			if !(valueOf.Block().Dominates(b)) {
-				continue // before the value is reflected (the untyped nil)
-			}
-			nRet++
-			// the most constrained Kind fact at this return
-			var ks ISet
-			for k, v := range f.At(b) {
-				if strings.HasPrefix(k, "pure:(reflect.Value).Kind(") {
-					if ks == nil || v.Card().Cmp(ks.Card()) < 0 {
-						ks = v
-					}
-				}
-			}
-			if ks == nil {
-				ks = mkSet(0, 26)
-			}
-			var bad []string
-			for k, name := range unsupportedKinds {
-				if ks.Contains(k) {
-					bad = append(bad, name)
-				}
-			}
-			sort.Strings(bad)
-			if len(bad) == 0 {
+		sort.Slice(ks, func(i, j int) bool { return ks[i] < ks[j] })
+		n2 := 0
+		for _, k := range ks {
+			kr := w.kindRun(wd, k, "enc")
+			key := "(*Encoder).WriteData · kind " + unsupportedKinds[k]
+			if kr.truncated || len(kr.paths) == 0 {
+				r.undecided("C13.R2 unsupported kinds yield an error", key, w.pos(wd.Pos()), fmt.Sprintf("exploration truncated=%v paths=%d", kr.truncated, len(kr.paths)))
 				continue
 			}
 			n2++
-			ok2 := w.nonNilErr(ret.Results[idx], nil, nil, 0)
-			fact := fmt.Sprintf("kinds that can reach this return include %v; error operand %s", bad, describeVal(ret.Results[idx], nil))
-			r.add("C13.R2 unsupported kinds yield an error", fmt.Sprintf("(*Encoder).WriteData · return#%d reachable for an unsupported kind", n2), w.instrPos(ret), ok2, fact)
+			ok2, fact, pos := true, "", w.pos(wd.Pos())
+			for _, p := range kr.paths {
+				switch {
+				case p.Arm != "":
+					ok2, fact, pos = false, fmt.Sprintf("a value of kind %s reaches the %s writer at %s", unsupportedKinds[k], p.Arm, p.Pos), p.Pos
+				case !p.ErrNonNil:
+					ok2, fact, pos = false, fmt.Sprintf("a value of kind %s reaches the return at %s, which can report success", unsupportedKinds[k], p.Pos), p.Pos
+				}
+				if !ok2 {
+					break
+				}
+			}
+			if ok2 {
+				fact = fmt.Sprintf("all %d paths for kind %s end in a non-nil error with nothing written", len(kr.paths), unsupportedKinds[k])
+			}
+			r.add("C13.R2 unsupported kinds yield an error", key, pos, ok2, fact)
 		}
-		r.floor("C13.R2 returns reachable for unsupported kinds", n2, 1)
-		r.note("kind dispatch: %d kind comparisons, %d returns after reflect.ValueOf examined", nCmp, nRet)
+		r.floor("C13.R2 unsupported kinds examined", n2, 6)
 	}
 
 	// R3: panic sites on the encode path
@@ -403,20 +368,24 @@ func (w *World) ruleAlwaysWrites(r *Report, rule string) {
 	for _, c := range w.leafWrites() {
 		leaf[c] = true
 	}
-	var fns []*ssa.Function
+	// reported: the functions that stand for one value each (the value
+	// dispatch, the container and scalar writers, the byte writers).  Every other
+	// function of the write closure takes part in the fixpoint as a candidate
+	// (a helper that always writes counts as a write at its call sites) but is
+	// not an obligation of its own: an extracted element loop may legitimately
+	// write nothing for an empty container, and is covered by the per-iteration
+	// rule instead.
+	var fns, cands []*ssa.Function
 	for _, fn := range w.SrcFuncs() {
-		if closure[fn] && errIndex(fn.Signature) >= 0 && fn.Signature.Recv() != nil && namedIs(fn.Signature.Recv().Type(), hessianPath, "Encoder") {
-			// the functions that stand for one value each: the value dispatch, the
-			// container and scalar writers, the byte writers.  Extracted helpers (an
-			// element loop may legitimately write nothing for an empty container)
-			// are covered by the per-iteration rule of C02.R2 instead.
-			if _, isRole := w.writerBoundaries()[fn]; isRole {
+		if closure[fn] && errIndex(fn.Signature) >= 0 {
+			cands = append(cands, fn)
+			if _, isRole := w.writerBoundaries()[fn]; isRole && fn.Signature.Recv() != nil && namedIs(fn.Signature.Recv().Type(), hessianPath, "Encoder") {
 				fns = append(fns, fn)
 			}
 		}
 	}
 	aw := map[*ssa.Function]bool{}
-	for _, fn := range fns {
+	for _, fn := range cands {
 		aw[fn] = true
 	}
 	why := map[*ssa.Function]string{}
@@ -469,7 +438,7 @@ func (w *World) ruleAlwaysWrites(r *Report, rule string) {
 	}
 	for changed := true; changed; {
 		changed = false
-		for _, fn := range fns {
+		for _, fn := range cands {
 			if aw[fn] && !eval(fn) {
 				aw[fn] = false
 				changed = true
